@@ -36,6 +36,14 @@ def run(chk, tier):
     # (NaN payloads and signed zeros of optional floats are bits of the image)
     import spec_optional
     spec_optional.check(chk, lib)
+    # where an entry and every member behind a group is read from follows from the group's size: H + numInGroup * blockLength
+    # and pos * blockLength computed without truncation or overflow for every dimension pair (group rows, R-INT)
+    import spec_group
+    glib = lib_for("vdims", "c++17")
+    spec_group.check_groups(chk, glib, limit=None if tier == "thorough" else 8)
+    rint.RInt(chk, glib.facts, glib.label, ("S1", "S2")).run(
+        lambda f: is_lib_or_gen(f, root) and (f.get("cls_tpl") in ("sbepp::detail::flat_group_base", "sbepp::detail::nested_group_base",
+                                                                   "sbepp::detail::random_access_iterator")))
     # cursor getters decode too: width, byte order and offsets of the cursor primitive each generated accessor forwards to
     e4.check(chk, ("accessors", "cursor"), tier)
     chk.floor("CODEC.get instantiations", chk.rule_counts.get("CODEC.get", 0), 60)
